@@ -195,7 +195,20 @@ impl Storable for AnnotationDataSet {
                     .ok_or_else(|| {
                         StamError::HandleError("AnnotationData refers to a key that does not exist")
                     })?;
-                if data.id().is_none() && self.data_by_value(data.key, data.value()).is_some() {
+                if let Some(id) = data.id() {
+                    //an item that is here under this identifier is overwritten:
+                    //the index from keys to data follows it to its new key
+                    let existing: Option<(AnnotationDataHandle, DataKeyHandle)> =
+                        <Self as StoreFor<AnnotationData>>::get(self, id)
+                            .ok()
+                            .and_then(|existing| existing.handle().map(|h| (h, existing.key)));
+                    if let Some((handle, oldkey)) = existing {
+                        if oldkey != data.key {
+                            self.key_data_map.remove(oldkey, handle);
+                            self.key_data_map.insert(data.key, handle);
+                        }
+                    }
+                } else if self.data_by_value(data.key, data.value()).is_some() {
                     //data without identifier is shared: the same key and value is here already
                     continue;
                 }
